@@ -780,6 +780,10 @@ pub struct Interp {
     pub follower_starts: u32,
     /// HTTP operations go through `xs::client` (see HistCase::client)
     pub via_client: bool,
+    /// content this engine wrote, by the hash the harness computed for it
+    pub contents: BTreeMap<String, Vec<u8>>,
+    /// off for power-loss images (content durability against power loss is not claimed)
+    pub content_sweep: bool,
     pub want_follower: bool,
     pub flags: Flags,
     pub checks: u64,
@@ -871,6 +875,8 @@ impl Interp {
             http_follower: None,
             follower_starts: 0,
             via_client: false,
+            contents: BTreeMap::new(),
+            content_sweep: true,
             want_follower,
             flags: Flags::default(),
             checks: 0,
@@ -1197,6 +1203,11 @@ impl Interp {
                     ));
                 }
                 self.model.apply_append(&spec, &w)?;
+                if let (Some(h), Some(c)) = (&spec.hash, &content) {
+                    if !c.is_empty() {
+                        self.contents.entry(h.clone()).or_insert_with(|| c.clone());
+                    }
+                }
                 let id = w.id128();
                 if spec.ttl == Some(WTtl::Ephemeral) && spec.topic != "xs.context" {
                     self.ephemeral_ids.push(id);
@@ -1613,6 +1624,32 @@ impl Interp {
         }
         // exact from here on
         let all = self.stream_read(ReadPath::Sync, None, None, None)?;
+        // whatever is visible with a hash whose content this history wrote still has that
+        // content, byte for byte (removing one frame must not take away what another shares)
+        let mut swept: BTreeSet<&String> = BTreeSet::new();
+        for w in all.iter().filter(|_| self.content_sweep) {
+            if let Some(h) = &w.hash {
+                if let Some(want) = self.contents.get(h) {
+                    if !swept.insert(h) {
+                        continue;
+                    }
+                    let want = want.clone();
+                    let got = self
+                        .exec
+                        .as_mut()
+                        .expect("executor running")
+                        .cas_read(h, false)
+                        .map_err(|e| Fail::new(Class::Cas, format!("{tag}: frame {} ({:?}) is visible with hash {h} but its content is not retrievable: {e}", w.id, w.topic)))?;
+                    self.checks += 1;
+                    if got != want {
+                        return Err(Fail::new(
+                            Class::Cas,
+                            format!("{tag}: content {h} of frame {} reads back as {} bytes, {} were written", w.id, got.len(), want.len()),
+                        ));
+                    }
+                }
+            }
+        }
         let all2 = self.stream_read(ReadPath::Stream, None, None, None)?;
         if all != all2 {
             return Err(Fail::new(
